@@ -37,7 +37,12 @@ func q(s string) string {
 	return "|" + s + "|"
 }
 
-func typeStr(t types.Type) string { return types.TypeString(t, nil) }
+func typeStr(t types.Type) string {
+	if r, ok := t.(*RawMap); ok {
+		return r.String()
+	}
+	return types.TypeString(t, nil)
+}
 
 func expandStruct(t types.Type) bool {
 	if n, ok := t.(*types.Named); ok {
@@ -49,7 +54,17 @@ func expandStruct(t types.Type) bool {
 	return true // anonymous struct
 }
 
+// RawMap is the type of a mathematical map / set value (an SMT array), as opposed to a Go map,
+// which is a reference. Written set[K] and mmap[K,V] in contracts.
+type RawMap struct{ Key, Elem types.Type }
+
+func (r *RawMap) Underlying() types.Type { return r }
+func (r *RawMap) String() string         { return "mmap[" + typeStr(r.Key) + "," + typeStr(r.Elem) + "]" }
+
 func (p *Prelude) sortOf(t types.Type) string {
+	if r, ok := t.(*RawMap); ok {
+		return "(Array " + p.sortOf(r.Key) + " " + p.sortOf(r.Elem) + ")"
+	}
 	t = types.Unalias(t)
 	switch u := t.Underlying().(type) {
 	case *types.Basic:
